@@ -44,6 +44,8 @@ def oracle(inp):
         for k, v in msg.items():
             if k.startswith('DE') and cfg[k[2:]].get('field_processor') in ('PAN', 'PAN-PREFIX'):
                 continue
+            if k.startswith('DE') and isinstance(v, str) and R.ls_of(cfg[k[2:]]) == 0 and not cfg[k[2:]].get('field_python_type'):
+                v = v[:cfg[k[2:]]['field_length']].ljust(cfg[k[2:]]['field_length'])     # fixed text comes back space-padded
             if k not in back or back[k] != v:
                 return 'roundtrip: key %s came back as %r, sent %r (%s, hex=%s)' % (k, back.get(k), v if not isinstance(v, (str, bytes)) or len(v) < 30 else v[:30], enc, hexb)
         for k, v in ref.items():
@@ -52,6 +54,18 @@ def oracle(inp):
         for k in back:
             if k not in ref and not (k.startswith('DE43_') or k.startswith('TAG') or k == 'ICC_DATA'):
                 return 'decode: undocumented extra key %s' % k
+        return None
+    if kind == 'custom-int':
+        W, v = inp['W'], inp['v']
+        c = {'2': {'field_name': 'n', 'field_type': 'FIXED', 'field_length': W, 'field_python_type': 'long'},
+             '64': {'field_name': 'm', 'field_type': 'FIXED', 'field_length': W, 'field_python_type': 'int'}}
+        for enc in ('latin_1', 'cp500'):
+            raw = iso8583.dumps({'MTI': '1144', 'DE2': v, 'DE64': v}, encoding=enc, iso_config=c)
+            if raw != R.ref_encode({'MTI': '1144', 'DE2': v, 'DE64': v}, c, enc):
+                return 'layout: width-%d numeric field with value %d not rendered as zero-padded decimal' % (W, v)
+            back = iso8583.loads(raw, encoding=enc, iso_config=c)
+            if back.get('DE2') != v or back.get('DE64') != v:
+                return 'roundtrip: width-%d numeric value %d came back as %r' % (W, v, back.get('DE2'))
         return None
     if kind == 'message':          # from a solver model: the element subset
         rng = __import__('random').Random(1)
@@ -108,6 +122,17 @@ def cases(tier, rng):
         yield mk([a, b], rng.choice(encs), rng.random() < 0.3)
     for _ in range(60 if tier == 'quick' else 1500):
         yield mk(rng.sample(bits, rng.randint(3, 12)), rng.choice(encs), rng.random() < 0.3)
+    # FIXED text shorter than the field width (left-justified, space-padded IN THE CHOSEN ENCODING)
+    for b in bits:
+        c = cfg[str(b)]
+        if R.ls_of(c) == 0 and not c.get('field_python_type'):
+            for enc in encs:
+                for n in (1, max(1, c['field_length'] // 2)):
+                    yield {'kind': 'msg', 'msg': {'MTI': '1144', 'DE%d' % b: 'Q' * n}, 'enc': enc, 'hex': False}
+    # caller-supplied configurations: wide numeric fields with extreme values
+    for W in (1, 2, 9, 15, 16, 17, 19, 20):
+        for v in (0, 10 ** W - 1, min(10 ** W - 1, 2 ** 53 + 1), min(10 ** W - 1, 9007199254740993)):
+            yield {'kind': 'custom-int', 'W': W, 'v': v, 'ftype': 'FIXED'}
     # PDS sets
     for la in list(range(470, 500)) + [0, 1, 992]:
         for lb in (0, 485, 493, 499, 500, 501):
